@@ -1564,10 +1564,6 @@ mod tests {
             .build();
         graph.assign_spaces_hb();
         assert_eq!(graph.nodes.len(), 4);
-        // the copy is what the 32-bit link now points to; the 16-bit link keeps the original
-        let copy = *graph.objects.keys().find(|id| !ids.contains(id)).unwrap();
-        assert_eq!(graph.objects[&ids[0]].offsets[1].object, copy);
-        assert_eq!(graph.objects[&ids[1]].offsets[0].object, ids[2]);
     }
 
     #[test]
